@@ -1372,6 +1372,9 @@ impl Check for C07 {
             "iteration bounds: IncrementalEngine::fire_all 1000 iterations (<= 1000 actions per call); fire_rete_ul_rules_with_agenda / ReteUlEngine::fire_all 100 passes (<= 100 x #rules actions per call)".into(),
         ]
     }
+    fn devopt_scale(&self) -> Option<f64> {
+        Some(0.1)
+    }
     fn explore(&self, cli: &Cli, st: &mut Stats) {
         let nthreads = cli.threads;
         // ---- Part A exhaustive
